@@ -26,6 +26,10 @@ class BaseProp:
     def selfcheck(self, counters, tier):
         return []
 
+    def search_streams(self, rng, tier):
+        """Further streams, run only when an obligation is broken and no failing input was found (expensive cases)."""
+        return []
+
     def known_match(self, failure, known):
         return None
 
